@@ -307,6 +307,33 @@ func run(c *mc.Ctx) {
 		}
 		c.Inc("distinct_nontrivial")
 	}
+	if c.Thorough() {
+		// two-step chains: the judged application starts from a state reached through the library
+		quickContacts := cf.Contacts(false)
+		idx := 0
+		for pi, pre := range cf.PreModifiers() {
+			for ci := range quickContacts {
+				idx++
+				if !c.Mine(idx) {
+					continue
+				}
+				if c.Expired() {
+					c.Cap(fmt.Sprintf("time budget reached in the two-step chains (first modifier %d)", pi))
+					return
+				}
+				for mi := range mods {
+					d := &cf.Direct{Contact: quickContacts[ci], Modifier: mods[mi], MaxField: 640, Pre: pre}
+					c.Inc("evaluations")
+					c.Inc("chained_applications")
+					c.Inc("states")
+					c.Inc("transitions")
+					for _, p := range judgeDirect(c, w, d, true) {
+						c.Violation("chain:"+p.Key, p.What+"\ncontact: "+mc.JSON(d.Contact)+"\nfirst modifier: "+mc.JSON(pre)+"\nmodifier: "+mc.JSON(d.Modifier), map[string]any{"space": "direct", "case": d})
+					}
+				}
+			}
+		}
+	}
 	roots := cf.EngineRoots()
 	for i := range roots {
 		if !c.Mine(i) {
